@@ -1,0 +1,36 @@
+//! Verification hooks (feature `verif-hooks`): atomics that yield to a test scheduler
+//! before every operation. Without an installed scheduler they behave exactly like
+//! the std atomics they wrap.
+pub mod sched {
+    use std::cell::RefCell;
+    thread_local! { static HOOK: RefCell<Option<Box<dyn Fn(&'static str)>>> = const { RefCell::new(None) }; }
+    pub fn install(f: Box<dyn Fn(&'static str)>) { HOOK.with(|h| *h.borrow_mut() = Some(f)); }
+    pub fn uninstall() { HOOK.with(|h| *h.borrow_mut() = None); }
+    pub fn yield_point(op: &'static str) { HOOK.with(|h| { if let Some(f) = h.borrow().as_ref() { f(op) } }); }
+}
+pub mod atomic {
+    use super::sched::yield_point;
+    use std::sync::atomic::Ordering;
+    macro_rules! wrap { ($name:ident, $inner:ty, $t:ty) => {
+        #[derive(Debug, Default)]
+        pub struct $name($inner);
+        impl $name {
+            pub const fn new(v: $t) -> Self { Self(<$inner>::new(v)) }
+            pub fn load(&self, o: Ordering) -> $t { yield_point("load"); self.0.load(o) }
+            pub fn store(&self, v: $t, o: Ordering) { yield_point("store"); self.0.store(v, o) }
+            pub fn compare_exchange_weak(&self, c: $t, n: $t, s: Ordering, f: Ordering) -> Result<$t, $t> { yield_point("cas"); self.0.compare_exchange(c, n, s, f) }
+            pub fn compare_exchange(&self, c: $t, n: $t, s: Ordering, f: Ordering) -> Result<$t, $t> { yield_point("cas"); self.0.compare_exchange(c, n, s, f) }
+            pub fn fetch_add(&self, v: $t, o: Ordering) -> $t { yield_point("rmw"); self.0.fetch_add(v, o) }
+            pub fn fetch_sub(&self, v: $t, o: Ordering) -> $t { yield_point("rmw"); self.0.fetch_sub(v, o) }
+            pub fn fetch_update<F: FnMut($t) -> Option<$t>>(&self, s: Ordering, f: Ordering, mut func: F) -> Result<$t, $t> {
+                let mut prev = self.load(f);
+                while let Some(next) = func(prev) {
+                    match self.compare_exchange_weak(prev, next, s, f) { Ok(x) => return Ok(x), Err(p) => prev = p }
+                }
+                Err(prev)
+            }
+        }
+    }}
+    wrap!(AtomicU64, std::sync::atomic::AtomicU64, u64);
+    wrap!(AtomicUsize, std::sync::atomic::AtomicUsize, usize);
+}
